@@ -61,7 +61,7 @@ def run(facts, rep, tier, ctx):
     for o in scratch2.obligations:
         if o["rule"] == "M":
             rep.ob("R11.8", o["fn"], o["key"].split("|")[2], o["ok"], o["detail"], o["loc"])
-    c10.marker_rules(facts, rep, ws, prefix="R11.8", only=("R10.1", "R10.5"))
+    c10.marker_rules(facts, rep, ws, prefix="R11.8", only=("R10.1", "R10.5", "R10.3"))
     # the async path type carries its own copy of every composite
     wa = World(facts, True)
     rep.ob("R11.A", "async_vfs", "async world present", wa.present(), "", "")
@@ -85,6 +85,6 @@ def run(facts, rep, tier, ctx):
             if o["rule"] == "M":
                 k += 1
                 A.ob("R11.8", o["fn"], o["key"].split("|")[2], o["ok"], o["detail"], o["loc"])
-        k += c10.marker_rules(facts, A, wa, prefix="R11.8", only=("R10.1", "R10.5"))
+        k += c10.marker_rules(facts, A, wa, prefix="R11.8", only=("R10.1", "R10.5", "R10.3"))
         rep.floor("async-world transfer obligations", k, 120)
     rep.assume("copy_dir/move_dir into the source's own subtree is excluded by the property")
